@@ -32,29 +32,67 @@ type findQuery struct {
 	Perr   string  `json:"perr"`
 }
 type findLine struct {
-	Ev   string      `json:"ev"`
-	ID   int         `json:"id"`
-	Tree []treeNode  `json:"tree"`
-	Q    []findQuery `json:"q"`
+	Ev    string      `json:"ev"`
+	ID    int         `json:"id"`
+	Tree  []treeNode  `json:"tree"`
+	Q     []findQuery `json:"q"`
+	Style string      `json:"style"`
 }
 
-var codeNames = map[int]string{9001: "V-Unsigned32", 9010: "V-OctetString", 9018: "V-Grouped", 9050: "V-Grouped2", 9008: "V-Time"}
+// 279 = Failed-AVP, a group of the BASE dictionary (its name resolves through the base, its members' names
+// through the message's application)
+var codeNames = map[int]string{9001: "V-Unsigned32", 9010: "V-OctetString", 9018: "V-Grouped", 9050: "V-Grouped2", 9008: "V-Time", 279: "Failed-AVP"}
 
-func buildForest(ns []treeNode, prefix []int, pos map[*diam.AVP][]int, shift int) []*diam.AVP {
+func wireCode(code, shift int) uint32 {
+	if code < 9000 { // base dictionary codes are the same under every verification dictionary
+		return uint32(code)
+	}
+	return uint32(code + shift)
+}
+
+// style: "complete" = every AVP built in one NewAVP call; "late" = groups are created empty and receive
+// their members afterwards (GroupedAVP.AddAVP); "literal" = struct literals (no Length)
+func buildForest(ns []treeNode, prefix []int, pos map[*diam.AVP][]int, shift int, style string) []*diam.AVP {
 	var out []*diam.AVP
+	mk := func(code uint32, d datatype.Type) *diam.AVP {
+		if style == "literal" {
+			return &diam.AVP{Code: code, Flags: 0x40, Data: d}
+		}
+		return diam.NewAVP(code, 0x40, 0, d)
+	}
 	for i, n := range ns {
 		p := append(append([]int(nil), prefix...), i+1)
 		var a *diam.AVP
 		if n.Grouped {
-			g := &diam.GroupedAVP{AVP: buildForest(n.Kids, p, pos, shift)}
-			a = diam.NewAVP(uint32(n.Code+shift), 0x40, 0, g)
+			kids := buildForest(n.Kids, p, pos, shift, style)
+			if style == "late" {
+				g := &diam.GroupedAVP{}
+				a = mk(wireCode(n.Code, shift), g)
+				for _, k := range kids {
+					g.AddAVP(k)
+				}
+			} else {
+				a = mk(wireCode(n.Code, shift), &diam.GroupedAVP{AVP: kids})
+			}
 		} else if n.Code == 9010 {
-			a = diam.NewAVP(uint32(n.Code+shift), 0x40, 0, datatype.OctetString("x"))
+			a = mk(wireCode(n.Code, shift), datatype.OctetString("x"))
 		} else {
-			a = diam.NewAVP(uint32(n.Code+shift), 0x40, 0, datatype.Unsigned32(7))
+			a = mk(wireCode(n.Code, shift), datatype.Unsigned32(7))
 		}
 		pos[a] = p
 		out = append(out, a)
+	}
+	return out
+}
+
+func substCode(ns []treeNode, from, to int) []treeNode {
+	out := make([]treeNode, len(ns))
+	for i, n := range ns {
+		out[i] = n
+		if n.Code == from {
+			out[i].Code = to
+		}
+		out[i].Kids = substCode(n.Kids, from, to)
 	}
 	return out
 }
@@ -71,10 +109,17 @@ func fixTree(ns []treeNode) []treeNode {
 
 func runFind(id int, c *findCase, dp *dict.Parser, shift int) findLine {
 	c.Tree = fixTree(c.Tree)
-	l := findLine{Ev: "find", ID: id, Tree: c.Tree, Q: []findQuery{}}
+	g2 := 9050
+	if id%3 == 1 {
+		// the second group code is the base dictionary's Failed-AVP in every third forest
+		g2 = 279
+		c = &findCase{Tree: substCode(c.Tree, 9050, 279)}
+	}
+	style := []string{"complete", "late", "literal"}[(id/3)%3]
+	l := findLine{Ev: "find", ID: id, Tree: c.Tree, Q: []findQuery{}, Style: style}
 	pos := map[*diam.AVP][]int{}
 	m := diam.NewMessage(abs.VCmd, 0x80, abs.VApp, 1, 2, dp)
-	for _, a := range buildForest(c.Tree, nil, pos, shift) {
+	for _, a := range buildForest(c.Tree, nil, pos, shift, style) {
 		m.AddAVP(a)
 	}
 	where := func(as []*diam.AVP) [][]int {
@@ -92,9 +137,9 @@ func runFind(id int, c *findCase, dp *dict.Parser, shift int) findLine {
 		if byname {
 			return codeNames[code]
 		}
-		return uint32(code + shift)
+		return wireCode(code, shift)
 	}
-	codes := []int{9001, 9010, 9018, 9050, 9008}
+	codes := []int{9001, 9010, 9018, g2, 9008}
 	for _, code := range codes {
 		for _, bn := range []bool{false, true} {
 			q := findQuery{Mode: "first", Codes: []int{code}, ByName: bn, Res: [][]int{}}
@@ -115,7 +160,7 @@ func runFind(id int, c *findCase, dp *dict.Parser, shift int) findLine {
 			l.Q = append(l.Q, q2)
 		}
 	}
-	pc := []int{9001, 9010, 9018, 9050}
+	pc := []int{9001, 9010, 9018, g2}
 	var paths [][]int
 	for _, a := range pc {
 		paths = append(paths, []int{a})
@@ -126,13 +171,13 @@ func runFind(id int, c *findCase, dp *dict.Parser, shift int) findLine {
 			}
 		}
 	}
-	paths = append(paths, []int{9008}, []int{9018, 9008}, []int{9008, 9001}, []int{9018, 9050, 9018, 9010})
+	paths = append(paths, []int{9008}, []int{9018, 9008}, []int{9008, 9001}, []int{9018, g2, 9018, 9010})
 	for k, p := range paths {
 		q := findQuery{Mode: "path", Codes: p, ByName: k%2 == 1, Res: [][]int{}}
 		q.Perr = safely(func() {
 			var ip []interface{}
 			for j, code := range p {
-				ip = append(ip, key(code, q.ByName && j%2 == 0))
+				ip = append(ip, key(code, q.ByName && (j%2 == 0 || k%4 == 3))) // every other named path: all elements by name
 			}
 			as, err := m.FindAVPsWithPath(ip, dict.UndefinedVendorID)
 			q.Err = err != nil
